@@ -111,3 +111,14 @@ META["C09"] = M(
          "omitted/Auto/Eigh/Eig/Lanczos/Arnoldi with max_iters n, n+3 and the default; f(A)@v compared per column with "
          "V f(L) V^-1 v of the reference (principal branch), single and multi-column operands with norms spread over 12 orders; "
          "distinct = structure + function + exponent + algorithm + iteration cap + operand rank")
+
+META["C10"] = M(
+    shards={"quick": 16, "thorough": 64}, budget={"quick": 45, "thorough": 800},
+    floors={"quick": {"evals": 6000, "distinct": 1200}, "thorough": {"evals": 150000, "distinct": 25000}},
+    required=["selection", "residual", "count", "independent", "orthonormal-for-self-adjoint", "eigmax", "eigmin"],
+    rule="square operators with simple spectra of distinct magnitudes (relative gaps >= 0.05): self-adjoint definite and "
+         "indefinite (dominant eigenvalue of either sign), real general with complex-conjugate pairs (ties in modulus), complex "
+         "general, Diagonal with unsorted/negative/complex entries, lower and upper Triangular, Identity; all 1<=k<=n, LM/SM, "
+         "algorithm omitted/Auto/Eigh/Eig/Lanczos/Arnoldi (caps n, n+4, default 1000)/PowerIteration; every returned pair judged "
+         "for residual, non-zero and independent (orthonormal if self-adjoint) vectors, count, and a tie-aware magnitude "
+         "selection test against the reference spectrum; eigmax/eigmin likewise; distinct = kind+structure+k+which+alg+cap")
